@@ -1,7 +1,7 @@
 """cnvlib/call.py, cnvlib/segfilters.py defaults and cut-offs -> Generated/CallConsts.lean"""
 import ast
 import os
-from ..translate import parse, find_func, func_defaults, rat, dec
+from ..translate import seg, parse, find_func, func_defaults, rat, dec
 
 NAME = "CallConsts"
 
@@ -20,7 +20,7 @@ def extract(repo, o):
     fn = find_func(tree, "do_call")
     thr = _src_of_default(fn, src, "thresholds")
     vals = [ast.literal_eval(e) for e in thr.elts]
-    texts = [ast.get_source_segment(src, e) for e in thr.elts]
+    texts = [seg(src, e) for e in thr.elts]
     o.defn("DEFAULT_THRESHOLDS", "List Rat", "[" + ", ".join(rat(v) for v in vals) + "]",
            "do_call default thresholds (exact doubles)")
     o.defn("DEFAULT_THRESHOLDS_dec", "List Rat", "[" + ", ".join(dec(t) for t in texts) + "]",
@@ -30,7 +30,7 @@ def extract(repo, o):
     o.defn("DEFAULT_METHOD", "String", '"%s"' % d["method"])
     fn2 = find_func(tree, "log2_ratios")
     mv = _src_of_default(fn2, src, "min_abs_val")
-    o.flt("MIN_ABS_VAL", ast.literal_eval(mv), ast.get_source_segment(src, mv), "log2_ratios min_abs_val")
+    o.flt("MIN_ABS_VAL", ast.literal_eval(mv), seg(src, mv), "log2_ratios min_abs_val")
     # sex-chromosome adjustments of log2_ratios: `+= 1.0` sites
     incs = [n for n in ast.walk(fn2) if isinstance(n, ast.AugAssign) and isinstance(n.op, ast.Add)]
     o.defn("LOG2_RATIOS_INCREMENTS", "List Rat", "[" + ", ".join(rat(ast.literal_eval(n.value)) for n in incs) + "]",
@@ -38,7 +38,7 @@ def extract(repo, o):
     tree, src = parse(os.path.join(repo, "cnvlib/segfilters.py"))
     fs = find_func(tree, "sem")
     z = _src_of_default(fs, src, "zscore")
-    o.flt("SEM_ZSCORE", ast.literal_eval(z), ast.get_source_segment(src, z), "segfilters.sem zscore")
+    o.flt("SEM_ZSCORE", ast.literal_eval(z), seg(src, z), "segfilters.sem zscore")
     fa = find_func(tree, "ampdel")
     ge = sorted({ast.literal_eval(c.comparators[0]) for c in ast.walk(fa)
                  if isinstance(c, ast.Compare) and isinstance(c.ops[0], ast.GtE)})
